@@ -35,6 +35,10 @@ type TaskSpec struct {
 	SinkFault *SinkFault `json:"sink_fault,omitempty"`
 	SrcFault  *SrcFault  `json:"src_fault,omitempty"`
 	SinkKind  string     `json:"sink_kind,omitempty"`
+	// reader only: how the client uses the reader: "" (documented loop) | count | alt | abandon
+	ReadMode string `json:"read_mode,omitempty"`
+	// writer only: the client never calls Close (the instance is abandoned after its last Write)
+	NoClose bool `json:"no_close,omitempty"`
 }
 
 // Segment is a run-length piece of an executed schedule.
